@@ -210,8 +210,8 @@ def run(tier: str, seed: int) -> int:
         plans = [("shapes", 3, 1, "single"), ("shapes", 2, 2, "layout"), ("params", 1, 0, "single"), ("q", 1, 0, "single"),
                  ("labels", 1, 1, "single"), ("subs", 1, 0, "single"), ("badlabels", 1, 0, "canon")]
     else:
-        plans = [("shapes", 3, 3, "single"), ("shapes", 4, 2, "canon"), ("shapes", 3, 2, "layout"), ("shapes", 2, 2, "product"),
-                 ("params", 2, 1, "single"), ("params", 1, 0, "productlite"), ("q", 2, 1, "productlite"), ("labels", 2, 1, "productlite"),
+        plans = [("shapes", 3, 3, "single"), ("shapes", 3, 2, "layout"), ("shapes", 2, 2, "product"),
+                 ("params", 2, 0, "single"), ("params", 1, 0, "productlite"), ("q", 1, 1, "productlite"), ("labels", 2, 1, "productlite"),
                  ("subs", 2, 1, "single"), ("subs", 1, 0, "productlite"), ("params", 1, 1, "canon"), ("q", 1, 1, "canon"),
                  ("subs", 1, 1, "canon"), ("badlabels", 2, 1, "single")]
     for focus, leaves, depth, mode in plans:
